@@ -143,6 +143,7 @@ struct Problem
 {
     Index n = 0, k = 0, m = 0;  // dimension, block size, number of constraint vectors
     SpMat A, B, T, X0, Y;
+    ld kappaG0 = 1;  // condition number of the Gram matrix of the start block (after the constraints), B inner product
     bool hasB = false, hasT = false, hasY = false;
     // oracle side (long double; built from the rounded matrices the solver actually receives)
     MatL Al, Bl;
@@ -247,7 +248,7 @@ static void check_outcome(Spectra::LOBPCGSolver<Real>& solver, const Problem& P,
     MatL G = X.transpose() * BX;
     ld gerr = vf::maxabs(MatL(G - MatL::Identity(k, k)));
     // (capped: an error of 1/4 is not "orthonormal up to rounding" whatever kappa(B) and the precision are)
-    const ld tolG = std::min<ld>(0.25L, CTOL * (ld) n * EPS * kappaB * its);
+    const ld tolG = std::min<ld>(0.25L, CTOL * (ld) n * EPS * kappaB * its * std::max<ld>(1, P.kappaG0));
     c.feat[tag + "gram_err"] = (double) gerr;
     c.feat[tag + "gram_err_over_tol"] = (double) (gerr / tolG);
     c.feat[tag + "coef_rows"] = (double) solver.m_evectors.rows();
@@ -312,7 +313,20 @@ static void check_outcome(Spectra::LOBPCGSolver<Real>& solver, const Problem& P,
             ld e = std::fabs(th[i] - ref);
             worst_ev = std::max(worst_ev, e / tolE);
             if (!(e <= tolE))  // feature for KF-C17-4: is the missed eigenvalue numerically zero (A singular at working precision)?
+            {
                 c.feat[tag + "missed_ref_over_scale"] = (double) (std::fabs(ref) / std::max(std::fabs(P.lam[0]), std::fabs(P.lam[n - 1])));
+                // features for KF-C17-7 (stopped by the residual criterion next to an unwanted eigenvector): the residual test ||r|| < tol*n admits
+                // an iterate whose component along the missed eigenvector is up to tol*n / |theta - lambda_missed| ("criterion angle"). A run that
+                // was merely STOPPED there still carries a visible fraction of that component; a run that converged to the wrong vector does not.
+                VecL vm = P.V.col(P.wanted[i]);
+                ld comp = (vm.transpose() * BX).cwiseAbs().maxCoeff();
+                ld gapm = std::numeric_limits<ld>::infinity();
+                for (Index j = 0; j < k; j++)
+                    gapm = std::min(gapm, std::fabs(th[j] - ref));
+                ld crit = (gapm > 0) ? tolL2 / gapm : std::numeric_limits<ld>::infinity();
+                c.feat[tag + "criterion_angle"] = (double) crit;
+                c.feat[tag + "missed_component_over_criterion_angle"] = (double) (comp / crit);
+            }
             VF_CHECK(e <= tolE, "eigenvalue_not_smallest", tag << "eigenvalues()[" << i << "] = " << vf::num(th[i]) << " but the " << (P.m ? "(deflated) " : "") << i << "-th smallest reference eigenvalue is "
                                                                   << vf::num(ref) << " (|diff| = " << vf::num(e) << " > " << vf::num(tolE) << "; start block cos(max angle) = " << vf::num(P.cmin) << ")");
         }
@@ -687,6 +701,14 @@ static void run_case(vf::Draw& d, vf::Case& c)
             // feature for KF-C17-6: is some pair of (projected) start columns B-orthogonal to rounding level, so that X'BX can have an
             // exactly zero off-diagonal entry (a sparse pattern, which the fill-reducing ordering of SimplicialLDLT then permutes)?
             MatL Mx = Xp.transpose() * P.Bl * Xp;
+            {
+                // the solver orthonormalises the start block by a Cholesky factorization of this Gram matrix; the orthonormality it can deliver
+                // is eps * cond(Gram), whatever happens later
+                Eigen::SelfAdjointEigenSolver<MatL> eg(MatL((Mx + Mx.transpose()) / 2), Eigen::EigenvaluesOnly);
+                ld lo = eg.eigenvalues()[0], hi = eg.eigenvalues()[k - 1];
+                P.kappaG0 = (lo > 0) ? hi / lo : std::numeric_limits<ld>::infinity();
+                c.feat["start_gram_cond"] = (double) P.kappaG0;
+            }
             ld mn = 1;
             for (Index j = 0; j < k; j++)
                 for (Index i = 0; i < j; i++)
@@ -770,6 +792,24 @@ static void run_case(vf::Draw& d, vf::Case& c)
     c.feat["start"] = start;
     c.feat["second"] = second;
 
+    if (vf::options().geti("dump", 0))
+    {
+        // triage aid: the problem in full precision
+        std::fprintf(stderr, "DUMP n=%ld k=%ld\n", (long) n, (long) k);
+        auto dump = [&](const char* name, const SpMat& M) {
+            for (int o = 0; o < M.outerSize(); ++o)
+                for (typename SpMat::InnerIterator it(M, o); it; ++it)
+                    std::fprintf(stderr, "%s %ld %ld %.21Lg\n", name, (long) it.row(), (long) it.col(), (long double) it.value());
+        };
+        dump("A", P.A);
+        if (P.hasB)
+            dump("B", P.B);
+        if (P.hasT)
+            dump("T", P.T);
+        if (P.hasY)
+            dump("Y", P.Y);
+        dump("X0", P.X0);
+    }
     // ---- run ---------------------------------------------------------------------------------------------------------
     Spectra::LOBPCGSolver<Real> solver(P.A, P.X0);
     if (P.hasB)
@@ -912,6 +952,15 @@ static std::string match_(const vf::Violation& v, const vf::Case& c)
     // KF-C17-4: the small Rayleigh-Ritz pencil is handed to the iterative SymGEigsSolver, whose start vector is forced into range(A):
     // a zero eigenvalue of a singular A is invisible to it, it reports Successful for Ritz values that miss it, and LOBPCG converges
     // (B-orthonormal iterate, small residuals, every returned value a genuine eigenvalue of the pencil) without the eigenvalue 0.
+    // KF-C17-7: the run is stopped by its residual criterion next to an unwanted eigenvector. Rayleigh-Ritz minimises the Rayleigh quotient, not
+    // the angle to the wanted eigenvector: with a preconditioner that weights the wanted direction weakly the component along it shrinks during
+    // the first steps, ||A x - theta x|| falls below tol*n at an interior eigenpair and Success is reported. Matched only when every returned
+    // value is a genuine eigenvalue, the tolerance is loose relative to the gap (criterion angle >= 1e-3) and the iterate still carries a visible
+    // share (>= 1 %) of the admissible component along the missed eigenvector - a run that CONVERGED to the wrong vector does not match.
+    for (const char* tag : {"c1.", "c2."})
+        if (v.kind == "eigenvalue_not_smallest" && v.detail.compare(0, 3, tag) == 0 && c.f(std::string(tag) + "all_in_spectrum") > 0 &&
+            c.f(std::string(tag) + "criterion_angle", 0) >= 1e-3 && c.f(std::string(tag) + "missed_component_over_criterion_angle", 0) >= 1e-2)
+            return "lobpcg_stopped_at_interior_eigenpair";
     for (const char* tag : {"c1.", "c2."})
         if (v.kind == "eigenvalue_not_smallest" && v.detail.compare(0, 3, tag) == 0 && c.f(std::string(tag) + "all_in_spectrum") > 0 &&
             c.f(std::string(tag) + "missed_ref_over_scale", 1) <= 64.0 * c.f("n") * (double) EPS)
